@@ -187,7 +187,8 @@ OnTriangle(t, x) ==
   LET n == Cross3(Sub3(t[2], t[1]), Sub3(t[3], t[1]))
       k == CHOOSE k \in 1..3 : n[k] # 0
       side(p, q) == Sgn(Cross3(Sub3(q, p), Sub3(x, p))[k]) * Sgn(n[k])
-  IN Dot3(n, Sub3(x, t[1])) = 0 /\ side(t[1], t[2]) >= 0 /\ side(t[2], t[3]) >= 0 /\ side(t[3], t[1]) >= 0
+      inbox == \A j \in 1..3 : x[j] >= MinS({t[1][j], t[2][j], t[3][j]}) /\ x[j] <= MaxS({t[1][j], t[2][j], t[3][j]})
+  IN inbox /\ Dot3(n, Sub3(x, t[1])) = 0 /\ side(t[1], t[2]) >= 0 /\ side(t[2], t[3]) >= 0 /\ side(t[3], t[1]) >= 0
 \* "in" / "on" / "out" of a local point x (units 1/den) for a source; for sheets "on" means on the closed triangle, for wires and
 \* points on the carrier line / point (observers must avoid these sets), otherwise "out".  A point on the straight extension of
 \* an edge or on the extension of a face plane OUTSIDE the body is "out": the laws hold there too
@@ -339,12 +340,23 @@ Tetra6 == <<<<1, 5, 7, 8>>, <<1, 5, 6, 8>>, <<1, 3, 7, 8>>, <<1, 3, 4, 8>>, <<1,
 EvenBox(s) == s.cls = "Cuboid" /\ \A j \in 1..3 : s.geo[j] % 2 = 0
 IsBoxMesh(s) == s.cls = "TriangularMesh" /\ Len(s.geo[2]) > 0 /\ ClosedOriented(SoupOf(s)) /\ SoupVol6(SoupOf(s)) > 0
 
-Reps == {"Mesh", "MeshHull", "Tetra5", "Tetra6", "Sheets", "TriColl", "FromTriangles", "FromMesh", "FullSeg", "Dipole", "Polygon"}
+Reps == {"Mesh", "MeshHull", "Tetra5", "Tetra6", "Sheets", "Prisms", "TriColl", "FromTriangles", "FromMesh", "FullSeg", "Dipole", "Polygon"}
+\* "Prisms": the box cut by the diagonal plane that contains its SHORTEST edge direction k into two triangular prisms, each a closed
+\* outward oriented 8-face mesh whose face list starts with the slanted (diagonal) face
+ThinAxis(dim) == CHOOSE k \in 1..3 : \A j \in 1..3 : dim[k] < dim[j] \/ (dim[k] = dim[j] /\ k <= j)
+Pt3(k, pu, pv, pw) == LET u == (k % 3) + 1  v == (u % 3) + 1 IN [j \in 1..3 |-> IF j = u THEN pu ELSE IF j = v THEN pv ELSE pw]
+PrismVerts(dim, k, tri) == LET w == dim[k] \div 2 IN
+    [n \in 1..6 |-> Pt3(k, tri[((n - 1) % 3) + 1][1], tri[((n - 1) % 3) + 1][2], IF n <= 3 THEN -w ELSE w)]
+PrismFaces == <<<<1, 2, 5>>, <<1, 5, 4>>, <<2, 3, 6>>, <<2, 6, 5>>, <<3, 1, 4>>, <<3, 4, 6>>, <<1, 3, 2>>, <<4, 5, 6>>>>
+PrismTris(dim, k) == LET u == (k % 3) + 1  v == (u % 3) + 1  a == dim[u] \div 2  b == dim[v] \div 2 IN
+    <<<<<<a, b>>, <<-a, -b>>, <<a, -b>>>>, <<<<-a, -b>>, <<a, b>>, <<-a, b>>>>>>
 \* "MeshLate" (act.ops = history): the 12-face mesh is built UN-normalised (reorient_faces skipped, the faces LateFlip inverted), the
 \* live object is used / inspected, normalised by reorient_faces(), possibly used again - and only then compared
 LateFlip == <<2, 5, 6, 10>>
 ConvertOK(s, rep) ==
-  CASE rep \in {"Mesh", "MeshLate", "MeshHull", "Tetra5", "Tetra6", "Sheets"} -> EvenBox(s)
+  CASE rep \in {"Mesh", "MeshLate", "MeshHull", "Sheets", "Prisms"} -> EvenBox(s)
+    \* the separating-axis test of the tetrahedra multiplies three lengths: 32-bit integers
+    [] rep \in {"Tetra5", "Tetra6"} -> EvenBox(s) /\ \A j \in 1..3 : s.geo[j] <= 64
     [] rep \in {"TriColl", "FromTriangles", "FromMesh"} -> IsBoxMesh(s)
     [] rep = "FullSeg" -> s.cls = "Cylinder" /\ s.geo[1] % 2 = 0
     [] rep = "Dipole" -> s.cls = "Sphere"
@@ -356,6 +368,8 @@ ConvertParts(s, act) ==
   CASE rep = "Mesh" -> <<[Part(s, "TriangularMesh", <<C, BoxFaces>>, Zero3) EXCEPT !.rep = "ctor"]>>
     [] rep = "MeshLate" -> <<[Part(s, "TriangularMesh", <<C, BoxFaces>>, Zero3) EXCEPT !.rep = "ctor_skip", !.flip = LateFlip, !.ops = act.ops]>>
     [] rep = "MeshHull" -> <<[Part(s, "TriangularMesh", <<C, <<>>>>, Zero3) EXCEPT !.rep = "from_ConvexHull"]>>
+    [] rep = "Prisms" -> LET k == ThinAxis(s.geo) IN
+         [n \in 1..2 |-> [Part(s, "TriangularMesh", <<PrismVerts(s.geo, k, PrismTris(s.geo, k)[n]), PrismFaces>>, Zero3) EXCEPT !.rep = "ctor"]]
     [] rep = "Tetra5" -> [n \in 1..5 |-> Part(s, "Tetrahedron", [m \in 1..4 |-> C[Tetra5[n][m]]], Zero3)]
     [] rep = "Tetra6" -> [n \in 1..6 |-> Part(s, "Tetrahedron", [m \in 1..4 |-> C[Tetra6[n][m]]], Zero3)]
     [] rep = "Sheets" -> [n \in 1..12 |-> Part(s, "Triangle", [m \in 1..3 |-> C[BoxFaces[n][m]]], Zero3)]
@@ -532,6 +546,18 @@ SegPartition(w, Q) ==
   /\ \A n, m \in 1..Len(Q) : n < m => SegDisjoint(w, Q[n], Q[m])
   /\ SumSeq([n \in 1..Len(Q) |-> SegMeasure(Q[n])]) = SegMeasure(w)
 
+\* two convex closed outward oriented meshes inside the box, on different sides of the plane of the first face of the first one,
+\* with exactly the volume of the box
+MeshPairPartition(w, Q) ==
+  LET T1 == SoupOf(Q[1])  T2 == SoupOf(Q[2])
+      f == T1[1]
+      nrm == Cross3(Sub3(f[2], f[1]), Sub3(f[3], f[1])) IN
+  /\ Len(Q) = 2 /\ \A n \in 1..2 : Q[n].cls = "TriangularMesh" /\ OffsetOf(w, Q[n]) = Zero3 /\ Len(Q[n].geo[2]) > 0
+  /\ ClosedOriented(T1) /\ ClosedOriented(T2) /\ SoupVol6(T1) > 0 /\ SoupVol6(T2) > 0
+  /\ \A pt \in SoupPts(T1) \cup SoupPts(T2) : InBox2(w, pt)
+  /\ \A pt \in SoupPts(T1) : Dot3(nrm, Sub3(pt, f[1])) <= 0
+  /\ \A pt \in SoupPts(T2) : Dot3(nrm, Sub3(pt, f[1])) >= 0
+  /\ SoupVol6(T1) + SoupVol6(T2) = 6 * w.geo[1] * w.geo[2] * w.geo[3]
 \* Q (a sequence of sources) describes exactly the body w with the same polarization at every path index
 SameBodyAs(w, Q) ==
   /\ Len(Q) >= 1 /\ \A n \in 1..Len(Q) : SamePoseExc(w, Q[n]) /\ GeoOK(Q[n])
@@ -541,7 +567,7 @@ SameBodyAs(w, Q) ==
             \* the implementation chooses the faces; the body is the convex hull of exactly the 8 corners
             Len(Q) = 1 /\ OffsetOf(w, Q[1]) = Zero3 /\ SeqRange(Q[1].geo[1]) = SeqRange(Corners(w.geo)) /\ EvenBox(w) /\ Len(Q[1].geo[2]) = 0
        [] w.cls = "Cuboid" /\ Q[1].cls = "TriangularMesh" /\ Q[1].rep # "from_ConvexHull" ->
-            Len(Q) = 1 /\ OffsetOf(w, Q[1]) = Zero3 /\ SurfaceOfBox(w, SoupOf(Q[1]))
+            IF Len(Q) = 1 THEN OffsetOf(w, Q[1]) = Zero3 /\ SurfaceOfBox(w, SoupOf(Q[1])) ELSE MeshPairPartition(w, Q)
        [] w.cls = "Cuboid" /\ Q[1].cls = "Triangle" ->
             /\ \A n \in 1..Len(Q) : Q[n].cls = "Triangle" /\ OffsetOf(w, Q[n]) = Zero3
             /\ SurfaceOfBox(w, [n \in 1..Len(Q) |-> Q[n].geo])
